@@ -226,7 +226,8 @@ def r18_c(ctx):
     co = [m_ for m_ in cls.methods if 'coerce' in m_]
     for m_ in co:
         fd = cls.methods[m_][-1]
-        p_ = fd.params()[1] if len(fd.params()) > 1 else None
+        own = [q for q in fd.params() if q not in ('self', 'cls')]
+        p_ = own[0] if own else None
         parses = [n for n in ast.walk(fd.node) if isinstance(n, ast.Call) and isinstance(n.func, ast.Attribute) and n.func.attr == 'parse']
         rebound = [n for n in ast.walk(fd.node) if isinstance(n, ast.Name) and n.id == p_ and isinstance(n.ctx, ast.Store)
                    and not (isinstance(getattr(n, '_parent', None), ast.Assign) and n._parent.value in parses)]
